@@ -1,14 +1,42 @@
 import SasLexer.Lex.Common
 /-!
-# `%name` dispatch: `lex_macro_call_stat_or_label`, `dispatch_macro_call_or_stat`,
-`lex_macro_identifier`, `lex_macro_call` and the `expect_*` pre-loaders
+# `%name` dispatch: `macro.rs` predicates, `lex_macro_call_stat_or_label`,
+`dispatch_macro_call_or_stat`, `lex_macro_identifier`, `lex_macro_call`, the `expect_*`
+pre-loaders, `dispatch_macro_do`, `dispatch_macro_local_global`
 -/
 namespace SasLexer
 open Prog (perform)
 open P
 
-/-- STUB (to be replaced by the full model) -/
+inductive MacroKwType where | none | macroCall | macroStat
+  deriving DecidableEq, Repr, Inhabited
+
+def isMacroStatTokType (t : TokenType) : Bool :=
+  TokenType.macroStatRange.1.toNat ≤ t.toNat && t.toNat ≤ TokenType.macroStatRange.2.toNat
+
+def isMacroQuoteCallTokType (t : TokenType) : Bool :=
+  TokenType.macroQuoteCallRange.1.toNat ≤ t.toNat && t.toNat ≤ TokenType.macroQuoteCallRange.2.toNat
+
+/-- STUB: `is_macro_stat(input)` where `input` starts with `%` -/
+def isMacroStat (_r : List Char) : Bool := false
+
+/-- STUB: `is_macro_eval_mnemonic(chars)` → (token type, extra chars besides the first) -/
+def isMacroEvalMnemonic (_r : List Char) : Option TokenType × Nat := (none, 0)
+
+/-- STUB -/
 def lexMacroIdentifier (_cfg : Cfg) (_allowMacroLabel : Bool) : Prog Unit :=
   unmodelled "lex_macro_identifier"
+
+/-- STUB -/
+def lexMacroCall (_cfg : Cfg) (_allowQuoteCall _allowStatToFollow : Bool) : Prog MacroKwType := do
+  unmodelled "lex_macro_call"
+  pure .none
+
+/-- STUB -/
+def dispatchMacroDo (_cfg : Cfg) (_c : Char) : Prog Unit := unmodelled "dispatch_macro_do"
+
+/-- STUB -/
+def dispatchMacroLocalGlobal (_cfg : Cfg) (_c : Char) (_isLocal : Bool) : Prog Unit :=
+  unmodelled "dispatch_macro_local_global"
 
 end SasLexer
